@@ -94,6 +94,19 @@ def oneStepFresnel(Uin, wvl, d1, z):
 
     return Uout
 
+def _fresnelTransform(U, delta, Dz):
+    """
+    The Fourier integral of a single Fresnel step, int U(x1) exp(-2j pi x1.x2 / (wvl Dz)) dx1,
+    sampled on the ascending grid x2 = wvl*abs(Dz)/(N*delta) * arange(-N/2, N/2).
+
+    For Dz > 0 this is the forward transform. For Dz < 0 the exponent changes sign,
+    which is the conjugate transform of the conjugate field; using the forward
+    transform there would return the plane mirrored through the origin.
+    """
+    if Dz < 0:
+        return numpy.conj(fouriertransform.ft2(numpy.conj(U), delta))
+    return fouriertransform.ft2(U, delta)
+
 def twoStepFresnel(Uin, wvl, d1, d2, z):
     """
     Fresnel propagation using a two step Fresnel propagation method.
@@ -131,7 +144,7 @@ def twoStepFresnel(Uin, wvl, d1, d2, z):
     #Evaluate Fresnel-Kirchhoff integral
     A = 1./(1j * wvl * Dz1)
     B = numpy.exp(1j * k/(2*Dz1) * (x1a**2 + y1a**2) )
-    C = fouriertransform.ft2(Uin * numpy.exp(1j * k/(2*Dz1) * (x1**2 + y1**2)), d1)
+    C = _fresnelTransform(Uin * numpy.exp(1j * k/(2*Dz1) * (x1**2 + y1**2)), d1, Dz1)
     Uitm = A*B*C
     #Observation plane
     Dz2 = z - Dz1
@@ -143,7 +156,7 @@ def twoStepFresnel(Uin, wvl, d1, d2, z):
     #Evaluate the Fresnel diffraction integral
     A = 1. / (1j * wvl * Dz2)
     B = numpy.exp( 1j * k/(2 * Dz2) * (x2**2 + y2**2) )
-    C = fouriertransform.ft2(Uitm * numpy.exp( 1j * k/(2*Dz2) * (x1a**2 + y1a**2)), d1a)
+    C = _fresnelTransform(Uitm * numpy.exp( 1j * k/(2*Dz2) * (x1a**2 + y1a**2)), d1a, Dz2)
     Uout = A*B*C
 
     return Uout
